@@ -159,6 +159,8 @@ func C20Scenarios(tier string) []*h.Scenario {
 			for i, v := range []string{"", "abc", "-5", "99999999999999999999"} {
 				hh.W.AddNode(a, sim.NodeOpt{Age: time.Duration(25+i) * Q, TaintValue: sp(v)})
 			}
+			hh.W.AddNode(a, sim.NodeOpt{Age: 30 * Q, TaintValue: sp("abc"), TaintEffect: v1.TaintEffectNoExecute})
+			hh.W.AddNode(a, sim.NodeOpt{Age: 31 * Q, TaintValue: sp(""), TaintEffect: v1.TaintEffectPreferNoSchedule})
 		}
 		s.Events = func(hh *h.Hist, slot int) []h.Event {
 			return []h.Event{evBurst(g, 3, 4000), evClearAllPods(g), evRestart(), evDescInsDown()}
